@@ -33,6 +33,7 @@ func main() {
 	if v := os.Getenv("VERIF_REPO"); v != "" {
 		repoDir = v
 	}
+	setupGoCache()
 	if len(os.Args) < 2 {
 		fmt.Println("usage: verif check <Cxx> [--tier quick|thorough] | run <files...> | replay <dir> | selftest")
 		os.Exit(2)
